@@ -7,6 +7,7 @@ import (
 	"runtime"
 	"strconv"
 	"strings"
+	"sync"
 	"time"
 
 	j1 "github.com/akramarenkov/cqos/join"
@@ -169,12 +170,10 @@ func (b *bb) runBatch(kind, ver string, size uint, nocopy bool, timeout time.Dur
 	}()
 	defer func() {
 		<-prodDone
-		if nocopy {
-			return
-		}
+		// (in no-copy mode the consumer of this harness only reads what it receives)
 		for i, xs := range inputs {
 			if !reflect.DeepEqual(xs, saved[i]) && !(len(xs) == 0 && len(saved[i]) == 0) {
-				b.fail("C08 %s %s copy mode: the producer's input slice %d changed from %v to %v: a delivered slice, which the consumer modifies, shares its memory", kind, ver, i, saved[i], xs)
+				b.fail("C08 %s %s nocopy=%v: the producer's input slice %d changed from %v to %v (in copy mode: a delivered slice, which the consumer modifies, shares its memory; in no-copy mode: the discipline wrote into it)", kind, ver, nocopy, i, saved[i], xs)
 				return
 			}
 		}
@@ -537,7 +536,11 @@ func (b *bb) scenarioLimit() {
 	before := b.fails()
 	r := b.r
 	q := uint64(1 + r.Intn(7))
-	pattern := []string{"stall-burst", "prefilled", "small", "trickle"}[b.cycle("limit", 4)]
+	pattern := []string{"stall-burst", "prefilled-short", "small", "trickle", "prefilled"}[b.cycle("limit", 5)]
+	short := pattern == "prefilled-short"
+	if short {
+		pattern = "prefilled"
+	}
 	interval := time.Duration(10+r.Intn(20)) * time.Millisecond
 	n := []int{0, int(q), 2*int(q) + 1, 3 * int(q), r.Intn(4*int(q) + 1)}[r.Intn(5)]
 	inCap := []int{0, 1, n + 1}[r.Intn(3)]
@@ -553,6 +556,17 @@ func (b *bb) scenarioLimit() {
 		n = r.Intn(int(q))
 		interval = time.Duration(600+r.Intn(400)) * time.Millisecond
 	case "prefilled":
+		if short {
+			// a short interval that does not divide 10 ms, many batches: a discipline that works
+			// with a coarser rate than the configured one falls clearly behind
+			interval = []time.Duration{6 * time.Millisecond, 7 * time.Millisecond, 5500 * time.Microsecond, 3 * time.Millisecond,
+				50 * time.Microsecond, 80 * time.Microsecond}[[]int{0, 4, 1, 2, 5, 3}[b.cycle("short-interval", 6)]]
+			q = 1 // one element per interval: rounding the rate to a coarser grid loses the most
+			n = 60 * int(q)
+			if interval < time.Millisecond {
+				n = 300 * int(q) // intervals below the timer resolution still limit the rate
+			}
+		}
 		inCap = n + 1
 	}
 	in := make(chan int, inCap)
@@ -647,7 +661,8 @@ loop:
 	switch pattern {
 	case "prefilled":
 		batches := (uint64(n) + q - 1) / q
-		if bound := time.Duration(batches+1)*interval + slack; end.Sub(t0) > bound {
+		// every batch ends with a sleep that may overshoot by what the canary saw
+		if bound := time.Duration(batches+1)*interval + slack + time.Duration(batches)*lag; end.Sub(t0) > bound {
 			b.fail("C12 limit: %d prefilled elements took %v, more than (ceil(N/Q)+1) intervals + slack = %v (Q=%d, Interval=%v)", n, end.Sub(t0), bound, q, interval)
 		}
 	case "small":
@@ -658,3 +673,125 @@ loop:
 	b.leakProbe("termination of limit")
 	b.note("limit", fmt.Sprintf("Q=%d I=%v N=%d cap=%d %s", q, interval, n, inCap, pattern), before)
 }
+
+// scenarioJoinShared: the input channel of a v2 join discipline has a second reader (another
+// consumer of the same queue).  Whatever the discipline accepted must still leave within the
+// timeout bound when the input falls silent (C10) - the ticker has to keep being looked at -
+// and nothing may be lost between the two readers (C03).
+func (b *bb) scenarioJoinShared() {
+	before := b.fails()
+	tmo, inc := 40*time.Millisecond, uint(25)
+	in := make(chan int, 16)
+	d, err := j2.New(j2.Opts[int]{Input: in, JoinSize: 100000, Timeout: tmo, TimeoutInaccuracy: inc})
+	if err != nil {
+		b.fail("C03 join.New: %v", err)
+		return
+	}
+	rounds := 2
+	if b.thorough {
+		rounds = 25
+	}
+	var mu sync.Mutex
+	sentAt := map[int]time.Time{}
+	gotAt := map[int]time.Time{}
+	stolen := map[int]bool{}
+	stopThief := make(chan struct{})
+	thiefDone := make(chan struct{})
+	go func() {
+		defer close(thiefDone)
+		for {
+			select {
+			case x, ok := <-in:
+				if !ok {
+					return
+				}
+				mu.Lock()
+				stolen[x] = true
+				mu.Unlock()
+				for i := 0; i < b.spin(); i++ {
+					runtime.Gosched()
+				}
+			case <-stopThief:
+				return
+			}
+		}
+	}()
+	consDone := make(chan struct{})
+	go func() {
+		defer close(consDone)
+		for sl := range d.Output() {
+			now := time.Now()
+			mu.Lock()
+			for _, x := range sl {
+				gotAt[x] = now
+			}
+			mu.Unlock()
+		}
+	}()
+	cn := startCanary()
+	next := 1
+	for r := 0; r < rounds; r++ {
+		for i := 0; i < 200; i++ {
+			mu.Lock()
+			sentAt[next] = time.Now()
+			mu.Unlock()
+			in <- next
+			next++
+		}
+		time.Sleep(tmo + tmo/time.Duration(100/inc) + 500*time.Millisecond)
+	}
+	lag := cn.lag()
+	// what the discipline accepted before the last silence must have left by now
+	bound := tmo + tmo/time.Duration(100/inc) + 300*time.Millisecond + 3*lag
+	mu.Lock()
+	late, missing := 0, 0
+	var worst time.Duration
+	for x, t0 := range sentAt {
+		if stolen[x] {
+			continue
+		}
+		t1, ok := gotAt[x]
+		if !ok {
+			missing++
+			continue
+		}
+		if res := t1.Sub(t0); res > bound {
+			late++
+			if res > worst {
+				worst = res
+			}
+		}
+	}
+	mu.Unlock()
+	if missing > 0 {
+		b.fail("C10 shared input: %d element(s) accepted by the join discipline are still inside it %v after the input fell silent (Timeout %v): the timeout flush did not happen while another reader shares the input", missing, tmo+tmo/time.Duration(100/inc)+500*time.Millisecond, tmo)
+	}
+	if late > 0 {
+		b.fail("C10 shared input: %d element(s) stayed inside the join discipline longer than the bound %v (worst %v, Timeout %v)", late, bound, worst, tmo)
+	}
+	close(stopThief)
+	<-thiefDone
+	close(in)
+	select {
+	case <-consDone:
+	case <-time.After(10 * time.Second):
+		b.fail("C03 shared input: the output was not closed within 10s after the input was closed")
+	}
+	mu.Lock()
+	lost := 0
+	for x := range sentAt {
+		if !stolen[x] {
+			if _, ok := gotAt[x]; !ok {
+				lost++
+			}
+		}
+	}
+	mu.Unlock()
+	if lost > 0 {
+		b.fail("C03 shared input: %d element(s) were neither delivered by the discipline nor taken by the other reader", lost)
+	}
+	b.leakProbe("termination of join with a shared input")
+	b.note("joinshared", fmt.Sprintf("rounds=%d", rounds), before)
+}
+
+func (b *bb) spin() int { return 1 + int(time.Now().UnixNano()%7) }
